@@ -259,7 +259,12 @@ where
 
                 // Reconstruct hash from relative path
                 let relative_path = blob_path.strip_prefix(cas_root).ok();
-                match relative_path.and_then(|p| BlobHash::from_relative_path(p).ok()) {
+                // Only the canonical location of a hash counts as its blob: `from_relative_path`
+                // also decodes upper-case digits and other splits of the same digits, and such a
+                // file would hide a missing blob while every read of it fails.
+                match relative_path.and_then(|p| {
+                    BlobHash::from_relative_path(p).ok().filter(|hash| hash.relative_path() == p)
+                }) {
                     Some(hash) => {
                         seen_blobs.insert(hash);
 
